@@ -18,7 +18,10 @@
     grid of configurations; Hypothesis adds longer scripts, float step vectors,
     float bounds, 1..3 continuation parameters.
 
-(B) end-to-end: `orbit.generate(options)` for Earth-Moon L1 families; every
+    Known on the pinned tree: bucket `continues-past-target` (pc.py: the target test only
+    leaves the retry loop, generation goes on up to max_members) - see replays/C13/reg-*.
+
+(B) end-to-end: `orbit.generate(options)` for Earth-Moon L1/L2 families; every
     member is propagated over ITS OWN period with SciPy DOP853 on the oracle's
     own CR3BP field (vf.oracle.cr3bp) and must close up to a bound that scales
     with the oracle's own monodromy norm.
@@ -27,7 +30,6 @@ from __future__ import annotations
 
 import json
 import math
-import re
 import zlib
 
 import numpy as np
@@ -62,7 +64,6 @@ ASSUMPTIONS = [
 
 EPS = 2.0 ** -52
 NT_CAP = 150_000
-_FAIL = "rx"
 
 
 class _Runaway(BaseException):
@@ -607,6 +608,8 @@ def run_enumeration(ctx, me, na):
     ctx.extra["A_enumerated_configurations"] = ncfg
     ctx.extra["A_backend_runs_incl_probes"] = total_runs
     ctx.extra["A_max_script_length_enumerated"] = L if me == 0 else 0
+    if me == 0 and ctx.tier != "quick":
+        ctx.note("thorough tier: at most %d distinct non-trivial keys are kept per shard (memory); A_nontrivial_cases is the exact number of non-trivial enumerated/drawn cases" % NT_CAP)
     ctx.extra["A_outcome_strings_represented"] = nstr
 
 
